@@ -5,7 +5,7 @@ import ir
 import ieg
 import paths
 import dispatch
-from . import c04, c18
+from . import common, c04, c18
 from .c17 import variant_of, agg_field, cv, nonconst_conds, case_value
 from .c05 import rows_of, self_field
 
@@ -68,7 +68,7 @@ def run(rep, facts):
     disp = sites.get('stream')
     ctor = [(b.npath, st["rv"]["vn"]) for (b, bi, si, st) in F.aggregates_of(facts, ST)
             if not (b.raw.get("impl_trait") and F.norm(b.raw["impl_trait"]) == "std::clone::Clone")]
-    stream_sites = sorted({p for (p, v) in ctor if v == "Stream"})
+    stream_sites = sorted({o for (p, v) in ctor if v == "Stream" for o in common.owners(facts, p)})
     if disp is not None and stream_sites == [disp.npath]:
         rep.ok("R2.1", "stream-state-construction", "State::Stream is constructed only in the header dispatch", disp.loc())
     else:
